@@ -160,8 +160,13 @@ class LJNode(cabc.Mapping, cabc.Sequence):
         if isinstance(key, int):
             rtn = self._load_or_node(self.offsets[key], self.sizes[key])
         elif isinstance(key, slice):
-            key = slice(*key.indices(len(self)))
-            rtn = list(map(self._load_or_node, self.offsets[key], self.sizes[key]))
+            # (offsets / sizes end with the entry of the node itself, hence
+            # the explicit positions; a slice rebuilt from ``key.indices()``
+            # would read a negative step's stop of -1 as "the last element")
+            rtn = [
+                self._load_or_node(self.offsets[i], self.sizes[i])
+                for i in range(*key.indices(len(self)))
+            ]
         else:
             raise TypeError("only integer indexing available")
         return rtn
